@@ -114,6 +114,8 @@ type World struct {
 	storeKeys   map[string]storetypes.StoreKey
 	GenesisJSON []byte
 	db          dbm.DB
+	// BalancesPanic holds the panic message of the last failed balance walk (see Balances).
+	BalancesPanic string
 }
 
 // Restart models a restart of the node's process at a block boundary: a new application object (new keepers, empty
@@ -426,8 +428,16 @@ func (w *World) HashStores(ctx sdk.Context, names []string, extra []byte) [32]by
 }
 
 // Balances returns every account balance (address -> coins string map, deterministic).
-func (w *World) Balances(ctx sdk.Context) map[string]sdk.Coins {
-	out := map[string]sdk.Coins{}
+// Balances lists every balance of the bank module. If the bank module itself can no longer walk its balances (a
+// record under an address it cannot decode, for instance), the result carries that fact under the key BalancesUnreadable.
+func (w *World) Balances(ctx sdk.Context) (out map[string]sdk.Coins) {
+	out = map[string]sdk.Coins{}
+	defer func() {
+		if r := recover(); r != nil {
+			out[BalancesUnreadable] = sdk.NewCoins(sdk.NewInt64Coin("unreadable", 1))
+			w.BalancesPanic = fmt.Sprint(r)
+		}
+	}()
 	w.App.BankKeeper.IterateAllBalances(ctx, func(addr sdk.AccAddress, c sdk.Coin) bool {
 		k := addr.String()
 		out[k] = out[k].Add(c)
@@ -435,6 +445,9 @@ func (w *World) Balances(ctx sdk.Context) map[string]sdk.Coins {
 	})
 	return out
 }
+
+// BalancesUnreadable: see Balances.
+const BalancesUnreadable = "<the bank module cannot iterate its balances>"
 
 func (w *World) Bal(ctx sdk.Context, addr sdk.AccAddress, denom string) sdk.Int {
 	return w.App.BankKeeper.GetBalance(ctx, addr, denom).Amount
